@@ -51,6 +51,17 @@ type form struct {
 	ops        []op
 	indirect   bool // the XObject resource entry is an indirect reference
 	matrixIndr bool // the /Matrix value is an indirect reference
+	// raw, when rawSet, is the stream content instead of the serialised ops (operator-less bodies:
+	// zero bytes, white space only, comment only); ops is empty then
+	raw    []byte
+	rawSet bool
+}
+
+func (f *form) content() []byte {
+	if f.rawSet {
+		return f.raw
+	}
+	return streamBytes(f.ops)
 }
 
 type program struct {
@@ -313,7 +324,7 @@ func (p *program) resources() (core.Dict, func(core.IndirectRef) (core.Object, e
 				d["Matrix"] = arr
 			}
 		}
-		data := streamBytes(f.ops)
+		data := f.content()
 		d["Length"] = core.Int(len(data))
 		st := &core.Stream{Dict: d, Data: data}
 		if f.indirect {
